@@ -228,6 +228,7 @@ func rcExecuteInto(cfg *rcCfg, out **rcRun) *rcRun {
 				vrt.Settle()
 			case 'O':
 				k := len(r.net.Conns)
+				vrt.Observe(uint64(k)) // a read of shared state that decides this task's behaviour
 				vrt.Await("outage", func() bool {
 					return len(r.net.Conns) > 0 && len(r.net.Conns) >= k && r.net.Conns[len(r.net.Conns)-1].Down()
 				})
@@ -235,6 +236,7 @@ func rcExecuteInto(cfg *rcCfg, out **rcRun) *rcRun {
 				vrt.Sleep(int64(15 * time.Second))
 			case 'H':
 				k := len(r.net.Conns)
+				vrt.Observe(uint64(k))
 				vrt.Await("reconnect handshake", func() bool {
 					n := len(r.net.Conns)
 					return n > k && r.broker.PacketsOn(n-1) >= 1
